@@ -116,6 +116,9 @@ pub struct LoopSim {
     ack_ctr: u64,
     bind_phase: u8,
     run_no: u64,
+    /// swallow schedules: the uplink whose first REG1 was lost, and whether the trace has been told
+    swallow: Option<usize>,
+    swallow_told: bool,
     /// blackout schedules: 0 = before, 1..n-1 = links being taken down, 100 = dark, 101.. = being repaired, 200 = over
     blackout_phase: usize,
     weak_run: [u32; 8],
@@ -210,6 +213,8 @@ impl LoopSim {
             ack_ctr: 0,
             bind_phase: 0,
             run_no: 0,
+            swallow: None,
+            swallow_told: false,
             blackout_phase: 0,
             weak_run: [0; 8],
             guard_phase: 0,
@@ -398,6 +403,13 @@ impl LoopSim {
         let at = now + self.rtt[link];
         let mut replies: Vec<Vec<u8>> = Vec::new();
         match cls_of(b) {
+            "reg1" if b.len() == 258 && self.profile == "swallow" && self.swallow.is_none() => {
+                // the first REG1 of the run is lost, and so is everything else the receiver would answer on that
+                // uplink from now on: the attempt has to be abandoned and started again elsewhere
+                self.swallow = Some(link);
+                self.path[link] = Path::RepliesLost;
+                self.bump("first_reg1_swallowed");
+            }
             "reg1" if b.len() == 258 => {
                 let mut g = [0u8; SRTLA_ID_LEN];
                 g.copy_from_slice(&b[2..]);
@@ -744,6 +756,8 @@ impl Engine for LoopSim {
         self.ack_ctr = 0;
         self.bind_phase = 0;
         self.run_no += 1;
+        self.swallow = None;
+        self.swallow_told = false;
         self.blackout_phase = 0;
         self.weak_run = [0; 8];
         self.guard_phase = 0;
@@ -1007,7 +1021,7 @@ impl Engine for LoopSim {
     fn gen_cfg(&mut self, rng: &mut StdRng) -> Value {
         let profile = std::env::var("VH_PROFILE").unwrap_or_else(|_| "steady".into());
         // (an outage needs a link to lose and one to survive)
-        let lo = if profile == "outage" || profile == "blackout" { 2 } else { 1 };
+        let lo = if profile == "outage" || profile == "blackout" || profile == "swallow" { 2 } else { 1 };
         let n = std::env::var("VH_LINKS").ok().and_then(|s| s.parse().ok()).unwrap_or_else(|| rng.random_range(lo..=4));
         let steps = std::env::var("VH_STEPS").ok().and_then(|s| s.parse().ok()).unwrap_or(3000u64);
         let rtt: Vec<u64> = (0..n).map(|_| [3u64, 8, 20, 45, 90][rng.random_range(0..5)]).collect();
@@ -1061,6 +1075,16 @@ impl Engine for LoopSim {
                     self.victim_repaired = true;
                     return Some(json!({"ev": "SetPath", "l": victim + 1, "p": "up"}));
                 }
+            }
+        }
+        if self.profile == "swallow" {
+            if let (Some(l), false) = (self.swallow, self.swallow_told) {
+                self.swallow_told = true;
+                return Some(json!({"ev": "SetPath", "l": l + 1, "p": "replies_lost"}));
+            }
+            // mostly time: the abandoned attempt, the other links' grace and retry take a dozen seconds
+            if self.registered.iter().all(|r| r.is_none()) && rng.random_range(0..3) != 0 {
+                return Some(json!({"ev": "Advance", "d": rng.random_range(20..300)}));
             }
         }
         if self.profile == "blackout" && self.n >= 2 {
